@@ -95,7 +95,12 @@ def preorder(shape):
 
 
 def check(case):
-    run = P.run_program(case["program"], sink="memorylogger", opts={"allow_late": True})
+    from .c03 import build_extractors
+
+    opts = {"allow_late": True}
+    if case.get("extractors"):
+        opts["extractors"] = build_extractors(case["extractors"])
+    run = P.run_program(case["program"], sink="memorylogger", opts=opts)
     require(not run.errors, "api-raised", lambda: repr(run.errors))
     msgs = run.messages
     if not msgs:
@@ -277,9 +282,12 @@ def classify(case, info):
 
 def strategy():
     variant = st.tuples(st.integers(0, 5), st.integers(0, 5), st.integers(0, 5), st.integers(0, 5), st.sampled_from([0, 0, 0, 1])).map(list)
+    from .c03 import extractor_specs
+
     return st.builds(
-        lambda asserts, p: {"asserts": asserts, "program": p},
+        lambda asserts, ex, p: {"asserts": asserts, "extractors": ex, "program": p},
         st.lists(variant, min_size=1, max_size=4),
+        st.one_of(st.just([]), extractor_specs()),
         P.programs(max_nodes=12, max_depth=5, remote_weight=2, min_depth=2),
     )
 
